@@ -46,7 +46,7 @@ func genC12(seed uint64, tier string) *plan.Plan {
 	horizon := int64(0)
 	for c := 0; c < nc; c++ {
 		op := plan.Op{K: "client", T: c, A: int64(r.IntN(50)), B: int64(1 + r.IntN(8)), C: int64(1 + r.IntN(3)), D: int64(r.IntN(20000)),
-			S: []string{"close", "close", "abort", "stay", "mute"}[r.IntN(5)]}
+			S: []string{"close", "close", "abort", "stay", "mute", "badhello"}[r.IntN(6)]}
 		if r.IntN(3) == 0 {
 			op.D = 0 // burst
 		}
@@ -179,6 +179,22 @@ func runC12(pl *plan.Plan, out *plan.Outcome) {
 		env.Go(fmt.Sprintf("client%d", op.T), func() {
 			defer func() { clientDone <- op.T }()
 			env.Sleep(time.Duration(op.A)*time.Millisecond + time.Millisecond)
+			if op.S == "badhello" && tr != 1 {
+				// connects, says something that is not the start of a session (over tls: not a
+				// handshake; over tcp: a few bytes short of a message header) and goes away
+				var c net.Conn
+				var err error
+				Block("dial", func() { c, err = env.Net.Dial("tcp", addr) })
+				if err != nil {
+					return
+				}
+				env.Count("fault.client_bad_hello", 1)
+				Block("write", func() { c.Write([]byte("GET / HTTP/1.0\r\n\r\n")[:3+op.T%12]) })
+				env.Sleep(time.Duration(op.D) * time.Microsecond)
+				Block("close", func() { c.Close() })
+				finished[op.T] = true
+				return
+			}
 			if op.S == "mute" && tr != 1 {
 				// connects and never says anything (over tls: not even a handshake) until Stop
 				var c net.Conn
